@@ -152,6 +152,8 @@ impl MIDGenerator {
 
         if let Some(message_id) = opt_message_id {
             self.curr_index += 1;
+            #[cfg(btdht_verif)]
+            crate::verif_log::record(format!("GEN {:016x}", self.action_id | message_id));
 
             TransactionID::new(self.action_id | message_id)
         } else {
